@@ -224,6 +224,18 @@ def _load_seeded():
             continue
         prop = rule.split('.')[0]
         VARIANTS.append({'id': 'seed-' + sid, 'prop': prop, 'kind': 'break', 'edits': [], 'patch': pp, 'expect': rule})
+        # the same defect after a behaviour-preserving refactor of the files it touches must still be reported
+        touched = [l[6:].strip() for l in open(pp) if l.startswith('+++ b/')]
+        vm = [t for t in touched if t.endswith(('functions.py', 'classes.py'))]
+        pt = [t for t in touched if t.endswith(('parsing.py', 'tools.py'))]
+        for tag, tf in (('temps', 'first-arg-temps'), ('inverted', 'invert-ifs'), ('augexp', 'expand-augassign')):
+            files = vm + pt
+            if files:
+                VARIANTS.append({'id': f'seed-{sid}+{tag}', 'prop': prop, 'kind': 'break', 'edits': [], 'patch': pp,
+                                 'expect': rule, 'post_transform': (tf, files)})
+        if vm and any(t.endswith('functions.py') for t in vm):
+            VARIANTS.append({'id': f'seed-{sid}+tails', 'prop': prop, 'kind': 'break', 'edits': [], 'patch': pp,
+                             'expect': rule, 'post_transform': ('extract-tails',)})
 
 
 _load_seeded()
